@@ -81,6 +81,10 @@ macro_rules! wins_body { ($k:expr) => {{
     let qi: usize = nd(); kani::assume(qi < 6);
     let q = match qi { 0 => QRY[0], 1 => QRY[1], 2 => QRY[2], 3 => QRY[3], 4 => QRY[4], _ => QRY[5] };
     assert!(t.would_enable(q, &level) == oracle3(&d, q, lvl), "C11.would_enable.most_specific_matching_directive_decides_none_means_disabled");
+    // the path ACTUAL filtering takes (Targets as a filter / layer: DirectiveSet::enabled over the metadata, via
+    // StaticDirective::cares_about) must give the same verdict as would_enable (which goes through cares_about_target)
+    let meta = tracing_core::Metadata::new("q", q, level, None, None, None, tracing_core::field::FieldSet::new(&[], tracing_core::identify_callsite!(&VCS)), VKind::EVENT);
+    assert!(t.0.enabled(&meta) == oracle3(&d, q, lvl), "C11.enabled.actual_filtering_most_specific_matching_directive_decides");
     // the published hint bounds every directive present (also after a replace)
     let hint = vrank(Some(t.0.max_level));
     for dir in t.0.directives() { assert!(vrank(Some(dir.level)) <= hint, "C11.DirectiveSet.max_level_bounds_every_directive_present"); }
